@@ -25,6 +25,18 @@ CLAIMED = {
                      'NaN pattern and every admissible parameter value the solver shows order preservation, the do/undo '
                      'identity, the [0,1]/minimum-range clauses, continuity at each step and NaN transparency.',
                 ref='DESIGN.md 4/C19', note=TRUST + '; real-number semantics (binary64 rounding of the round trip is outside the claim)'),
+    'C01': dict(text='Bounded symbolic execution of the real CeiloChunk.metar_msg on directly constructed chunks whose '
+                     'table rows (okta, base) are symbolic and whose significant/code columns are filled by the real '
+                     'icao/wmo functions: for every table up to the row bound, every MSA and flag value the solver shows '
+                     'the grammar, the ordering, the 1-3-5 ranks and the exclusion of zero-okta and at/above-MSA rows.',
+                ref='DESIGN.md 4/C01', note=TRUST + '; message text handled as fragment strings (formatted symbolic integers)'),
+    'C02': dict(text='Same exploration shape as C01 with the C02 clause set (first group = lowest reportable layer, '
+                     'ceiling among the groups, NCD/NSC exactly as stated), plus the flag clause of the MSA-cropping harness.',
+                ref='DESIGN.md 4/C02', note=TRUST),
+    'C07': dict(text='Bounded symbolic execution of the real AbstractChunk._cleanup_pdf on symbolic hit tables: row-by-row '
+                     'oracle (kept / turned into a non-detection / dropped), flag <=> count above > MAX_HITS_OKTA0, and two '
+                     '2-run comparisons (other heights above the limit; non-detections instead) decided by the solver on every path.',
+                ref='DESIGN.md 4/C07', note=TRUST + '; real-number semantics of MSA+buffer'),
 }
 NA = {}
 
